@@ -489,6 +489,10 @@ class Interp:
         # {x.id: ... for x in xs}: ids identify the elements (pairwise distinct: assumption A-UUID), so the dict is keyed by element
         key_is_elem_id = isinstance(e.key, ast.Attribute) and e.key.attr == "id" and isinstance(e.key.value, ast.Name) \
             and isinstance(gen.target, ast.Name) and e.key.value.id == gen.target.id
+        if items is None and isinstance(it, SList) and not gen.ifs and (key_is_elem or key_is_elem_id) and not it.unordered and not getattr(it, "dupfree", False):
+            # a user list may hold the same object twice (a step repeated in a journey): a dict keyed by its elements collapses the
+            # repeats, which the positional encoding below cannot express
+            raise Unsupported("dict keyed by the elements of a list that may repeat an element")
         if items is None and isinstance(it, SList) and not gen.ifs and (key_is_elem or key_is_elem_id):
             def base(k, it=it, env=env):
                 env2 = dict(env); self.assign(gen.target, it.elem(k), env2)
